@@ -126,6 +126,10 @@ func (r *ComDoc) makeFreeSectors(count int, short bool) []SecID {
 // there are no more sectors.
 func (r *ComDoc) readSAT() error {
 	count := r.SectorSize / 4
+	// each piece of the SAT occupies a whole sector of the file
+	if int64(r.Header.SATSectors) > int64(r.sectorCount) {
+		return errors.New("SAT sector count is larger than the file")
+	}
 	sat := make([]SecID, count*int(r.Header.SATSectors))
 	position := 0
 	for _, sector := range r.MSAT {
